@@ -2048,8 +2048,15 @@ static bool initMemoryManager()
         extMemPool.init(0, nullptr, nullptr, granularity,
                         /*keepAllMemory=*/false, /*fixedPool=*/false);
 // TODO: extMemPool.init() to not allocate memory
-    if (!initOk || !initBackRefMain(&defaultMemPool->extMemPool.backend) || !ThreadId::init())
+    if (!initOk)
         return false;
+    if (!initBackRefMain(&defaultMemPool->extMemPool.backend) || !ThreadId::init()) {
+        // Initialization is retried by the next allocation request, and extMemPool.init()
+        // creates a new TLS key each time: give the key back, otherwise a long enough
+        // out-of-memory period at start-up exhausts the keys and initialization can never succeed.
+        defaultMemPool->extMemPool.tlsPointerKey.destroy();
+        return false;
+    }
     MemoryPool::initDefaultPool();
     // init() is required iff initMemoryManager() is called
     // after mallocProcessShutdownNotification()
